@@ -37,9 +37,9 @@ func TestC09(t *testing.T) {
 	r.Assume("header fields have their canonical widths (32/20/256/8 bytes); revision number 0")
 	defer r.Finish()
 
-	nChains := r.N(40, 1200)
+	nChains := r.N(40, 1500)
 	workers := r.N(4, 12)
-	r.MinNontrivial(r.N(15000, 300000))
+	r.MinNontrivial(r.N(30000, 1200000))
 	if r.Replaying() {
 		workers = 1
 	}
@@ -83,6 +83,46 @@ func TestC09(t *testing.T) {
 	}
 	wg.Wait()
 	r.Set("distinct_model_states", len(states))
+	if !r.Replaying() {
+		reachabilityProbe(r)
+	}
+}
+
+// reachabilityProbe records (evidence only, no verdict) whether a client can be
+// anchored at height 0 with a genuine Parlia genesis header (all-zero seal) or
+// only with a sealed block 0: the recents underflow needs an anchor below floor(N/2).
+func reachabilityProbe(r *core.Run) {
+	node := core.NewNode(core.NodeConfig{ChainID: "teleport_9000-1", XIBCName: "teleport", Accounts: []*core.Account{core.NewAccount("a")}})
+	node.Begin(time.Date(2022, 1, 2, 0, 0, 5, 0, time.UTC))
+	c := newChain(r, node, "probe", 0)
+	cur := c.order(c.fresh(nil, 21))
+	mk := func(sealed bool) error {
+		h := &bsctypes.Header{
+			ParentHash: make([]byte, 32), UncleHash: emptyUncle[:], Coinbase: cur[0][:], Root: rnd(c.rng, 32), TxHash: rnd(c.rng, 32), ReceiptHash: rnd(c.rng, 32),
+			Bloom: make([]byte, 256), Difficulty: []byte{1}, Height: clienttypes.NewHeight(0, 0), GasLimit: 40000000, Time: 1650000000, Extra: c.extra(cur),
+			MixDigest: make([]byte, 32), Nonce: make([]byte, 8),
+		}
+		if sealed {
+			seal(h, 56, c.byAddr[cur[0]].key)
+		}
+		cs := &bsctypes.ClientState{Header: *h, ChainId: 56, Epoch: 200, BlockInteval: 3, Validators: addrBytes(cur), ContractAddress: rnd(c.rng, 20), TrustingPeriod: 1 << 40}
+		if err := cs.Validate(); err != nil {
+			return err
+		}
+		cctx, _ := node.Ctx().CacheContext()
+		err, _ := core.Catch(func() error {
+			return node.App.XIBCKeeper.ClientKeeper.CreateClient(cctx, "bsc-probe", cs, &bsctypes.ConsensusState{Timestamp: h.Time, Height: h.Height, Root: h.Root})
+		})
+		return err
+	}
+	str := func(err error) string {
+		if err == nil {
+			return "accepted"
+		}
+		return "rejected: " + err.Error()
+	}
+	r.Set("create_client_at_height_0_epoch_200_N_21_with_unsealed_genesis_header", str(mk(false)))
+	r.Set("create_client_at_height_0_epoch_200_N_21_with_sealed_block_0", str(mk(true)))
 }
 
 // ---------------------------------------------------------------------- chain
@@ -139,7 +179,7 @@ func newChain(r *core.Run, node *core.Node, id string, idx int) *chain {
 	if c.epoch > 50 {
 		c.heights = int(c.epoch) + 25
 	}
-	c.q = 0.4
+	c.q = 1.0
 	c.shuffled = rng.Intn(5) == 0
 	c.degenerate = c.epoch <= 10 && rng.Intn(6) == 0
 	switch rng.Intn(5) {
@@ -972,6 +1012,14 @@ func (c *chain) try(cd cand) (ok bool, m2 *model, write func()) {
 		if reason == "signer/recently-signed" && m.next() < m.window()+1 {
 			// the window test of the client computes number-limit in uint64
 			key = "recents/underflow/number<limit"
+			switch {
+			case m.anchor == 0:
+				r.Count("underflow_accepts/anchor_height_0", 1)
+			case c.degenerate:
+				r.Count("underflow_accepts/epoch_le_halfN_nonzero_anchor", 1)
+			default:
+				r.Count("underflow_accepts/other", 1)
+			}
 		}
 		r.Violation(c.id, key, c.detail(cd.class, h, verdict, reason, err, nil))
 		return false, nil, nil
